@@ -222,12 +222,14 @@ def gen_model(rng, stream="main", size=None):
     kinds_all = ["const", "const", "alias", "alias", "negalias", "negalias", "affine", "affine", "paramexpr",
                  "scaled", "pscaled", "pscaled", "rscaled", "block", "elim", "elim", "elimchain", "aliaschain", "aliaschain", "zero", "negform", "paramalias", "inputalias"]
     if stream == "nonlinear":
-        kinds_all = kinds_all + ["nonlin", "nonlin", "nonlin", "ifelim", "ifelim"]
+        kinds_all = kinds_all + ["nonlin", "nonlin", "nonlin", "ifelim", "ifelim", "unaryfun", "unaryfun", "unaryfun", "unaryfun"]
     if stream in ("contradiction", "iter"):
         kinds_all = [k for k in kinds_all if k not in ("elim", "elimchain")]
+    if stream == "unaryfun":
+        kinds_all = ["unaryfun"] * 5 + ["const", "affine", "alias", "scaled"]
     if stream == "eliminit":
         kinds_first = ["const", "inputalias"]
-        kinds_all = ["elimchain", "elimchain", "elim", "const", "affine", "inputalias", "alias"]
+        kinds_all = ["elimchain", "elimchain", "elim", "elim", "const", "affine", "inputalias", "alias"]
     if stream == "allalias":
         kinds_first = ["inputalias"]
         kinds_all = ["aliaschain", "aliaschain", "alias", "negalias", "inputalias"]
@@ -320,8 +322,15 @@ def gen_model(rng, stream="main", size=None):
                 b.indep.append(v)       # state independent: may appear in an initial equation
             else:
                 rhs, val = _affine_rhs(b, maxterms=2, use_params=r.random() < 0.5)
-            form = r.choice(["l", "r", "add-l", "add-r", "add-r"])
-            if form == "l":
+            form = r.choice(["l", "r", "add-l", "add-r", "add-r", "add-num"])
+            if stream == "eliminit" and r.random() < 0.6:
+                form = r.choice(["add-r", "add-num"])
+            if form == "add-num":       # `e + 3 = 0` (CasADi keeps it as 3 + e): the eliminable variable is the last operand
+                k = b.small(nz=True)
+                eq, val = "%s + %s = 0" % (v, lit(k) if k >= 0 else par(lit(k))), -k
+                if v not in b.indep:
+                    b.indep.append(v)
+            elif form == "l":
                 eq = "%s = %s" % (v, rhs)
             elif form == "r":
                 eq = "%s = %s" % (rhs, v)
@@ -423,6 +432,21 @@ def gen_model(rng, stream="main", size=None):
             b.kinds.append("aliaschain%d" % depth)
             i += depth
             continue
+        elif kind == "unaryfun":
+            # the residual is, at top level, an elementary function of an affine expression (possibly under a sign or a
+            # constant factor): f(v - w - k) = 0 has the unique solution v - w - k = f^-1(0), exact in floating point
+            # (log 1 = 0, sinh 0 = tanh 0 = arctan 0 = 0); only functions that vanish exactly at 0 may be dropped
+            w = b.ref()
+            if w is None:
+                continue
+            b.affine = False
+            k = b.small(lo=-2, hi=2)
+            fn = r.choice(["log", "log", "log", "sinh", "tanh", "arctan"])
+            zero_at = 1 if fn == "log" else 0
+            val = b.sol[w] + k + zero_at
+            inner = "%s(%s - %s - %s)" % (fn, v, w, lit(k) if k >= 0 else par(lit(k)))
+            eq = r.choice(["%s = 0" % inner, "0 = %s" % inner, "3*%s = 0" % inner, "-%s = 0" % inner,
+                           "%s/4 = 0" % inner, "(-5)*%s = 0" % inner])
         elif kind == "ifelim":
             # an if-equation defining an eliminable variable; after the SX round trip it is the sum of two
             # if_else_zero terms `extract_assignment` looks through (condition on an input only)
@@ -709,6 +733,9 @@ def gen_options(rng, case):
         o["expand_vectors"] = False if not o["expand_mx"] else o["expand_vectors"]
     elif stream in ("contradiction", "timealias"):
         o["detect_aliases"] = True
+    elif stream == "unaryfun":
+        o["factor_and_simplify_equations"] = True
+        o.pop("reduce_affine_expression", None)
     elif stream == "eliminit":
         o["eliminable_variable_expression"] = ELIM_RE
         o["expand_mx"] = True
@@ -1128,7 +1155,11 @@ def oracle_c14(case, r):
             if nm in sol and canon in sol and sol[nm] != sgn * sol[canon]:
                 out.append(("recorded alias does not hold in the original solution: %s ~ %s" % (canon, a),
                             "%s = %s" % (nm, fstr(sgn * sol[canon])), fstr(sol[nm])))
-    # a variable recorded as an alias must have been eliminated, and vice versa nothing else may vanish silently
+    # every symbol the simplified equations mention is a variable of the simplified model: a removed parameter or
+    # constant that is still referred to is no longer fixed at its value (and an eliminated unknown is unconstrained)
+    for g, names_ in sorted(dangling(m).items()):
+        out.append(("simplified %s refer to symbols that are not variables of the simplified model (not fixed at any value): %s"
+                    % (g, ",".join(names_)), "only variables of the simplified model", names_))
     built, fs = build_functions(m)
     if built["dae_residual_function"] is not None or built["initial_residual_function"] is not None:
         return out                       # C15's statement; C14 cannot evaluate a residual that does not exist
@@ -1261,7 +1292,8 @@ def plan(tier, prop):
     q = tier == "quick"
     p = [("contradiction", 3 if q else 40, 2), ("iter", 3 if q else 40, 2), ("delay", 5 if q else 60, 3),
          ("aliaschain", 8 if q else 150, 3), ("affineconst", 5 if q else 60, 2),
-         ("allalias", 4 if q else 60, 2), ("eliminit", 5 if q else 60, 2)]
+         ("allalias", 4 if q else 60, 2), ("eliminit", 5 if q else 60, 2),
+         ("unaryfun", 4 if q else 60, 2)]
     if prop == "C15":
         p += [("constexpr", 2 if q else 30, 2), ("timealias", 2 if q else 20, 2),
               ("affineinit", 2 if q else 30, 2), ("iteraffine", 2 if q else 30, 2), ("iterparam", 2 if q else 30, 2)]
